@@ -8,11 +8,11 @@
     Proofs: proofs/{CheckSigProofs,DerProofs,MultisigProofs,SigOpProofs}.v.
     The model is tied to the Go code on every run by corr/C06.v (harness/cmd/c06).
 
-    Where the code deviates from the reference rules the theorems state the behaviour AS CODED and say
-    so: see [C06_flag_table] ([NoForkIdBit], [Unparsable]) and [C06_hash_type_rule]. *)
+    One deviation of the code from the reference rules remains (known finding): the digest algorithm is
+    chosen by the hash-type bit alone, also when the FORKID flag is off — see [C06_checksig_result]. *)
 From Coq Require Import List NArith ZArith Bool.
 From Coq Require Import Strings.Byte.
-From GoBT Require Import lib.Bytes model.Tx model.SigHash model.SigHashWire model.ScriptNum model.Interp model.CheckSig
+From GoBT Require Import lib.Bytes lib.VarInt model.Tx model.SigHash model.SigHashWire model.ScriptNum model.Interp model.CheckSig
   spec.DigestSpec spec.MultisigSpec proofs.InterpTotal proofs.CheckSigProofs proofs.DerProofs proofs.MultisigProofs
   proofs.SigOpProofs.
 Import ListNotations.
@@ -126,10 +126,10 @@ Theorem C06_checksig_result : forall orc t i c s idx pk full r sig hb up inp,
   if orc_parse_pub orc pk && orc_parse_sig orc (uses_der_parser c) sig then
     match orc_verify orc pk h sig (uses_der_parser c) with
     | None => None
-    | Some ok => if negb ok && has_flag c F_NULLFAIL && Nat.ltb 0 (length sig) then Some OErr
-                 else Some (push_bool (set_ds s r) ok)
+    | Some true => Some (push_bool (set_ds s r) true)
+    | Some false => Some (checksig_failed c (set_ds s r) full)      (* false, or the NULLFAIL error *)
     end
-  else Some (push_bool (set_ds s r) false).
+  else Some (checksig_failed c (set_ds s r) full).
 Proof. exact checksig_result. Qed.
 Print Assumptions C06_checksig_result.
 
@@ -183,9 +183,8 @@ Print Assumptions C06_code_start_tracking.
 
 (** * 5. the flag table *)
 
-(** the hash-type rule of STRICTENC as coded (BIP143 flag off), for all 256 hash-type bytes:
-    defined base type, and the FORKID bit only under the FORKID flag.  The converse — FORKID flag
-    demands the bit — is NOT enforced by the code (defect reported: MUST_USE_FORKID unreachable). *)
+(** the hash-type rule of STRICTENC (BIP143 flag off), for all 256 hash-type bytes: defined base type,
+    and the FORKID bit exactly when the FORKID flag is set (ILLEGAL_FORKID / MUST_USE_FORKID) *)
 Theorem C06_hash_type_rule : forall c shf, (shf < 256)%N -> has_flag c F_BIP143 = false ->
   check_hash_type c shf = hash_type_rule (has_flag c F_STRICTENC) (has_flag c F_FORKID) shf.
 Proof. exact check_hash_type_rule. Qed.
@@ -223,12 +222,12 @@ Theorem C06_flag_table_64 : forall se de lo nd nf fk,
   let c := flags_of se de lo nd nf fk in
   hard c HashTypeUndefined = (se || fk) /\
   hard c ForkIdBit = ((se || fk) && negb fk) /\
-  hard c NoForkIdBit = false /\
+  hard c NoForkIdBit = fk /\
   hard c NotStrictDER = (de || lo || se || fk) /\
   hard c HighS = lo /\
   hard c PubKeyShape = (se || fk) /\
   hard c VerifyFails = nf /\
-  hard c Unparsable = false.
+  hard c Unparsable = nf.
 Proof. intros [|] [|] [|] [|] [|] [|]; vm_compute; repeat split. Qed.
 Print Assumptions C06_flag_table_64.
 
@@ -308,5 +307,9 @@ Example C06_matching_example :
 Proof.
   cbn. split.
   - apply mm_take; [reflexivity|]. apply mm_skip. apply mm_take; [reflexivity|]. apply mm_done.
-  - intros H. apply (greedy_spec Nat.eqb [1; 2; 3]%nat [3; 1]%nat) in H; [discriminate|].
-Abort.
+  - intros H.
+    assert (H' : monotone_matching (fun s k => Nat.eqb s k = true) [3; 1]%nat [1; 2; 3]%nat).
+    { clear -H. revert H. generalize [3; 1]%nat, [1; 2; 3]%nat. intros ss ks H. induction H; constructor; auto.
+      apply PeanoNat.Nat.eqb_eq. assumption. }
+    apply (greedy_spec Nat.eqb [1; 2; 3]%nat [3; 1]%nat) in H'. discriminate.
+Qed.
